@@ -1,3 +1,683 @@
-pub fn run(_ctx: &crate::Ctx) -> i32 { 2 }
-pub fn digest_server() -> i32 { 2 }
-pub fn miri_slice(_ctx: &crate::Ctx) -> i32 { 2 }
+//! C02 — decoding is total: arbitrary bytes give a value or an error, never a
+//! panic, an overflow, a loop without progress or an allocation out of
+//! proportion; debug and release builds decode identically.
+//!
+//! Monitors: catch_unwind + panic hook (overflow-checked build), counting
+//! allocator (peak live bytes per call), progress watchdog, and a digest
+//! differential against the same workload executed by the plain release build.
+
+use crate::sut::{decode_type_raw, guarded, panic_signature, parse_enum_raw, ENUM_KEYS, TYPE_KEYS};
+use crate::Ctx;
+use refcodec::codec::{bcd_bytes, ber_len, Codec, Node, Payload};
+use refcodec::evidence::{sharded, Report};
+use refcodec::gen::{Gen, GenCfg, Presence};
+use refcodec::hex;
+use refcodec::layout::*;
+use refcodec::prng::{fnv, Rng};
+use refcodec::tables::REPLY_ENUMS;
+use serde_json::json;
+use std::alloc::{GlobalAlloc, Layout, System};
+use std::cell::Cell;
+use std::io::{BufReader, Read, Write};
+use std::sync::atomic::{AtomicBool, AtomicPtr, AtomicU64, AtomicUsize, Ordering};
+
+// ---------------------------------------------------------------- counting allocator
+
+pub struct Counting;
+
+thread_local! {
+    static LIVE: Cell<isize> = const { Cell::new(0) };
+    static PEAK: Cell<isize> = const { Cell::new(0) };
+}
+
+unsafe impl GlobalAlloc for Counting {
+    unsafe fn alloc(&self, l: Layout) -> *mut u8 {
+        let p = System.alloc(l);
+        if !p.is_null() {
+            let _ = LIVE.try_with(|c| {
+                let v = c.get() + l.size() as isize;
+                c.set(v);
+                let _ = PEAK.try_with(|p| {
+                    if v > p.get() {
+                        p.set(v)
+                    }
+                });
+            });
+        }
+        p
+    }
+    unsafe fn dealloc(&self, p: *mut u8, l: Layout) {
+        let _ = LIVE.try_with(|c| c.set(c.get() - l.size() as isize));
+        System.dealloc(p, l)
+    }
+    unsafe fn realloc(&self, p: *mut u8, l: Layout, new: usize) -> *mut u8 {
+        let q = System.realloc(p, l, new);
+        if !q.is_null() {
+            let _ = LIVE.try_with(|c| {
+                let v = c.get() + new as isize - l.size() as isize;
+                c.set(v);
+                let _ = PEAK.try_with(|p| {
+                    if v > p.get() {
+                        p.set(v)
+                    }
+                });
+            });
+        }
+        q
+    }
+}
+
+#[global_allocator]
+static GLOBAL: Counting = Counting;
+
+fn alloc_window_start() {
+    LIVE.with(|c| c.set(0));
+    PEAK.with(|c| c.set(0));
+}
+fn alloc_window_peak() -> usize {
+    PEAK.with(|c| c.get()).max(0) as usize
+}
+
+// ---------------------------------------------------------------- decoders
+
+/// 0..55 struct types, 55..72 reply enums
+fn n_decoders() -> usize {
+    TYPE_KEYS.len() + ENUM_KEYS.len()
+}
+fn decoder_name(d: usize) -> &'static str {
+    if d < TYPE_KEYS.len() {
+        TYPE_KEYS[d]
+    } else {
+        ENUM_KEYS[d - TYPE_KEYS.len()]
+    }
+}
+/// Result digest: Ok(Debug, remainder) | Err(variant); panics are reported separately.
+fn decode(d: usize, input: &[u8]) -> Result<u64, String> {
+    guarded(|| {
+        if d < TYPE_KEYS.len() {
+            match decode_type_raw(TYPE_KEYS[d], input) {
+                Ok((dbg, rest)) => fnv(dbg.as_bytes()) ^ (rest as u64).wrapping_mul(0x9E3779B97F4A7C15) ^ 1,
+                Err(e) => fnv(e.as_bytes()) ^ 2,
+            }
+        } else {
+            match parse_enum_raw(ENUM_KEYS[d - TYPE_KEYS.len()], input) {
+                Ok(dbg) => fnv(dbg.as_bytes()) ^ 1,
+                Err(e) => fnv(e.as_bytes()) ^ 2,
+            }
+        }
+    })
+}
+
+// ---------------------------------------------------------------- workload (deterministic; identical in both builds)
+
+struct Corpus {
+    /// (type index, canonical encoding, chunk tree)
+    items: Vec<(usize, Vec<u8>, Option<Node>)>,
+}
+
+fn build_corpus(schema: &Schema, seed: u64, per_type: usize, repo: &str) -> Corpus {
+    let codec = Codec::new(schema);
+    let gen = Gen::new(schema, GenCfg { big: false, stray_pct: 0 });
+    let mut items = vec![];
+    for (ti, key) in TYPE_KEYS.iter().enumerate() {
+        let def = schema.get(key);
+        let mut rng = Rng::derive(seed, 0xC02 ^ fnv(key.as_bytes()));
+        let mut got = 0;
+        let mut tries = 0;
+        while got < per_type && tries < per_type * 30 {
+            tries += 1;
+            let presence = match got {
+                0 => Presence::AllPresent,
+                1 => Presence::AllAbsent,
+                _ => Presence::Random,
+            };
+            let v = gen.gen_struct(&mut rng, def, presence, 0);
+            if let Ok(b) = codec.canonical(def, &v) {
+                if b.len() <= 1200 {
+                    let tree = codec.enc_top(def, &v).ok();
+                    items.push((ti, b, tree));
+                    got += 1;
+                } else if presence != Presence::Random {
+                    got += 1;
+                }
+            } else if presence != Presence::Random {
+                got += 1; // systematic mask not canonical for this type
+            }
+        }
+    }
+    // the repository's captured packets
+    let mut names: Vec<_> = std::fs::read_dir(format!("{repo}/zvt/data")).map(|d| d.filter_map(|e| e.ok()).map(|e| e.path()).collect()).unwrap_or_default();
+    names.sort();
+    for p in names {
+        if let Ok(bytes) = std::fs::read(&p) {
+            if bytes.len() < 2 {
+                continue;
+            }
+            for (ti, key) in TYPE_KEYS.iter().enumerate() {
+                if schema.get(key).cf == Some((bytes[0], bytes[1])) {
+                    items.push((ti, bytes.clone(), None));
+                }
+            }
+        }
+    }
+    Corpus { items }
+}
+
+fn visit_nodes<'a>(n: &'a mut Node, out: &mut Vec<*mut Node>) {
+    out.push(n as *mut Node);
+    if let Payload::Struct(s) = &mut n.payload {
+        for c in s.positional.iter_mut() {
+            visit_nodes(c, out);
+        }
+        for g in s.groups.iter_mut() {
+            for c in g.elems.iter_mut() {
+                visit_nodes(c, out);
+            }
+        }
+    }
+}
+
+/// One structure-aware mutation of a chunk tree; returns the hostile bytes.
+fn mutate_tree(tree: &Node, rng: &mut Rng) -> Option<Vec<u8>> {
+    let mut t = tree.clone();
+    let n_mut = 1 + rng.below(2);
+    for _ in 0..n_mut {
+        let mut ptrs = vec![];
+        visit_nodes(&mut t, &mut ptrs);
+        let target = ptrs[rng.below(ptrs.len() as u64) as usize];
+        // SAFETY: pointers into `t`, which is alive and not otherwise borrowed; one node is mutated at a time.
+        let node: &mut Node = unsafe { &mut *target };
+        let plen = match &node.payload {
+            Payload::Leaf(b) => b.len(),
+            Payload::Struct(s) => s.bytes().map(|b| b.len()).unwrap_or(0),
+        };
+        match rng.below(14) {
+            0 => node.prefix_override = Some(vec![0x81]),
+            1 => node.prefix_override = Some(vec![0x82]),
+            2 => node.prefix_override = Some(vec![0x82, rng.byte()]),
+            3 => node.prefix_override = Some(vec![0xff]),
+            4 => node.prefix_override = Some(vec![0xff, rng.byte()]),
+            5 => {
+                // announce more / less than there is, in the style's own form
+                let wrong = if rng.chance(1, 2) { plen + 1 + rng.below(300) as usize } else { plen.saturating_sub(1 + rng.below(3) as usize) };
+                node.prefix_override = Some(match (&node.len, node.apdu) {
+                    (_, true) => refcodec::codec::apdu_len(wrong.min(65535)).unwrap(),
+                    (Len::Ll, _) => refcodec::codec::llvar(wrong.min(99), 2).unwrap(),
+                    (Len::Lll, _) => refcodec::codec::llvar(wrong.min(999), 3).unwrap(),
+                    _ => ber_len(wrong.min(65535)).unwrap(),
+                });
+            }
+            6 => {
+                // digit overflow: far more BCD digits than any integer can hold
+                let n = 1 + rng.below(24) as usize;
+                node.payload = Payload::Leaf(vec![0x99; n]);
+            }
+            7 => {
+                // F nibbles / non-digits
+                let n = rng.below(12) as usize;
+                node.payload = Payload::Leaf((0..n).map(|_| *rng.pick(&[0xffu8, 0x9f, 0xf9, 0xaa, 0x0f, 0xf0, 0x12])).collect());
+            }
+            8 => {
+                // calendar values (date-time TLVs) with impossible components
+                let date = rng.below(10000) as u128 * 10000 + rng.below(20) as u128 * 100 + rng.below(40) as u128;
+                let time = rng.below(30) as u128 * 10000 + rng.below(100) as u128 * 100 + rng.below(100) as u128;
+                let (db, tb) = if rng.chance(1, 6) { (vec![0x99; 12], vec![0x99; 6]) } else { (bcd_bytes(date), bcd_bytes(time)) };
+                let mut p = vec![0x1f, 0x0e];
+                p.extend(ber_len(db.len()).unwrap());
+                p.extend(db);
+                if !rng.chance(1, 8) {
+                    p.extend([0x1f, 0x0f]);
+                    p.extend(ber_len(tb.len()).unwrap());
+                    p.extend(tb);
+                }
+                if rng.chance(1, 8) {
+                    p.extend([0x1f, 0x0e, 0x01, 0x01]);
+                }
+                node.payload = Payload::Leaf(p);
+            }
+            9 => {
+                // tag splice
+                node.tag = match rng.below(4) {
+                    0 => vec![0x1f],
+                    1 => vec![0xff],
+                    2 => vec![0x1f, rng.byte()],
+                    _ => vec![rng.byte()],
+                };
+            }
+            10 => {
+                if let Payload::Struct(s) = &mut node.payload {
+                    if !s.groups.is_empty() {
+                        let i = rng.below(s.groups.len() as u64) as usize;
+                        let g = s.groups[i].clone();
+                        match rng.below(3) {
+                            0 => s.groups.push(g),
+                            1 => {
+                                s.groups.remove(i);
+                            }
+                            _ => s.groups.insert(0, g),
+                        }
+                    }
+                }
+            }
+            11 => {
+                let n = rng.below(9) as usize;
+                node.payload = Payload::Leaf(rng.bytes(n));
+            }
+            12 => node.payload = Payload::Leaf(vec![]),
+            _ => {
+                if let Payload::Leaf(b) = &mut node.payload {
+                    if !b.is_empty() {
+                        let i = rng.below(b.len() as u64) as usize;
+                        b[i] = rng.byte();
+                    }
+                }
+            }
+        }
+    }
+    let mut bytes = t.bytes().or_else(|| tree.bytes())?;
+    // cut inside (nested containers cut in the middle), sometimes
+    if rng.chance(1, 5) && bytes.len() > 3 {
+        let cut = 3 + rng.below((bytes.len() - 3) as u64) as usize;
+        bytes.truncate(cut);
+    }
+    Some(bytes)
+}
+
+struct Sink<'a> {
+    f: &'a mut dyn FnMut(usize, &[u8], &str),
+}
+
+/// Enumerate this shard's part of the workload.  `emit(decoder, input, part)`.
+fn workload(schema: &Schema, corpus: &Corpus, quick: bool, seed: u64, shard: usize, nshards: usize, sink: &mut Sink) {
+    let nd = n_decoders();
+    // (i) exhaustive: every input of length <= 2; cf cf len body for every body of length <= 2
+    for d in (0..nd).filter(|d| d % nshards == shard) {
+        (sink.f)(d, &[], "short");
+        for a in 0..256usize {
+            (sink.f)(d, &[a as u8], "short");
+            for b in 0..256usize {
+                (sink.f)(d, &[a as u8, b as u8], "short");
+            }
+        }
+        let cfs: Vec<(u8, u8)> = if d < TYPE_KEYS.len() {
+            schema.get(TYPE_KEYS[d]).cf.into_iter().collect()
+        } else {
+            REPLY_ENUMS[d - TYPE_KEYS.len()].variants.iter().filter_map(|(_, k)| schema.get(k).cf).collect()
+        };
+        for (c, i) in cfs {
+            (sink.f)(d, &[c, i, 0], "cf-body");
+            (sink.f)(d, &[c, i, 1], "cf-body");
+            for a in 0..256usize {
+                (sink.f)(d, &[c, i, 1, a as u8], "cf-body");
+                (sink.f)(d, &[c, i, 2, a as u8], "cf-body");
+                for b in 0..256usize {
+                    (sink.f)(d, &[c, i, 2, a as u8, b as u8], "cf-body");
+                }
+            }
+        }
+    }
+    // decoders a corpus packet is sent through: its own type, and (for packets) every reply enum
+    let enum_ds: Vec<usize> = (TYPE_KEYS.len()..nd).collect();
+    let through = |ti: usize, f: &mut dyn FnMut(usize)| {
+        f(ti);
+        if schema.get(TYPE_KEYS[ti]).cf.is_some() {
+            for e in &enum_ds {
+                f(*e);
+            }
+        }
+    };
+    // (ii) corpus: itself, every truncation, every single-byte substitution
+    let max_off = if quick { 96 } else { 1200 };
+    let corpus_n = if quick { corpus.items.len().min(64 + 64) } else { corpus.items.len() };
+    // quick: a seed-dependent sample of the corpus
+    let mut order: Vec<usize> = (0..corpus.items.len()).collect();
+    Rng::derive(seed, 0xC0F).shuffle(&mut order);
+    for (k, &ci) in order.iter().take(corpus_n).enumerate() {
+        if k % nshards != shard {
+            continue;
+        }
+        let (ti, bytes, _) = &corpus.items[ci];
+        through(*ti, &mut |d| (sink.f)(d, bytes, "corpus"));
+        for cut in 0..bytes.len() {
+            through(*ti, &mut |d| (sink.f)(d, &bytes[..cut], "truncation"));
+        }
+        let mut m = bytes.clone();
+        for off in 0..bytes.len().min(max_off) {
+            let orig = m[off];
+            for v in 0..256usize {
+                if v as u8 == orig {
+                    continue;
+                }
+                m[off] = v as u8;
+                // own decoder always; the enums for a sample of values (they only look at cf + the same decoder)
+                (sink.f)(*ti, &m, "substitution");
+                if off < 3 || v % 64 == 0 {
+                    if schema.get(TYPE_KEYS[*ti]).cf.is_some() {
+                        for e in &enum_ds {
+                            (sink.f)(*e, &m, "substitution");
+                        }
+                    }
+                }
+            }
+            m[off] = orig;
+        }
+    }
+    // (iii) structure-aware random mutants
+    let n_mut: u64 = if quick { 1_500_000 } else { 12_000_000 };
+    let with_tree: Vec<usize> = (0..corpus.items.len()).filter(|i| corpus.items[*i].2.is_some()).collect();
+    let mut rng = Rng::derive(seed, 0xC02_0000 + shard as u64);
+    for _ in 0..n_mut / nshards as u64 {
+        let ci = with_tree[rng.below(with_tree.len() as u64) as usize];
+        let (ti, _, tree) = &corpus.items[ci];
+        if let Some(bytes) = mutate_tree(tree.as_ref().unwrap(), &mut rng) {
+            (sink.f)(*ti, &bytes, "structure-aware");
+            if rng.chance(1, 4) && schema.get(TYPE_KEYS[*ti]).cf.is_some() {
+                let e = enum_ds[rng.below(enum_ds.len() as u64) as usize];
+                (sink.f)(e, &bytes, "structure-aware");
+            }
+        }
+    }
+    // a few large inputs up to the 64 KiB APDU limit
+    let big_n = if quick { 40 } else { 600 };
+    for k in 0..big_n {
+        if k % nshards != shard {
+            continue;
+        }
+        let mut rng = Rng::derive(seed, 0xB16 + k as u64);
+        let d = rng.below(nd as u64) as usize;
+        let cfs: Vec<(u8, u8)> = if d < TYPE_KEYS.len() { schema.get(TYPE_KEYS[d]).cf.into_iter().collect() } else { REPLY_ENUMS[d - TYPE_KEYS.len()].variants.iter().filter_map(|(_, k)| schema.get(k).cf).collect() };
+        let body_len = *rng.pick(&[254usize, 255, 256, 4096, 65535, 65534, 30000]);
+        let fill = *rng.pick(&[0x00u8, 0x99, 0xff, 0x60, 0x06, 0x07]);
+        let mut body = vec![fill; body_len];
+        if rng.chance(1, 2) {
+            // many two-byte elements "60 00" / "07 00": amplification probe
+            for (i, b) in body.iter_mut().enumerate() {
+                *b = if i % 2 == 0 { fill } else { 0 };
+            }
+        }
+        let mut input = vec![];
+        if let Some((c, i)) = cfs.first() {
+            input.extend([*c, *i]);
+            input.extend(refcodec::codec::apdu_len(body.len()).unwrap());
+        }
+        input.extend(body);
+        (sink.f)(d, &input, "large");
+    }
+}
+
+// ---------------------------------------------------------------- watchdog
+
+static WD_PTR: [AtomicPtr<u8>; 64] = [const { AtomicPtr::new(std::ptr::null_mut()) }; 64];
+static WD_LEN: [AtomicUsize; 64] = [const { AtomicUsize::new(0) }; 64];
+static WD_DEC: [AtomicUsize; 64] = [const { AtomicUsize::new(0) }; 64];
+static WD_SEQ: [AtomicU64; 64] = [const { AtomicU64::new(0) }; 64];
+static WD_DONE: AtomicBool = AtomicBool::new(false);
+
+const STALL_SECS: u64 = 10;
+
+fn watchdog_thread(nshards: usize, tier: String, seed: u64) {
+    let mut last: Vec<(u64, std::time::Instant)> = (0..nshards).map(|_| (u64::MAX, std::time::Instant::now())).collect();
+    while !WD_DONE.load(Ordering::Relaxed) {
+        std::thread::sleep(std::time::Duration::from_millis(500));
+        for s in 0..nshards {
+            let seq = WD_SEQ[s].load(Ordering::Acquire);
+            if seq % 2 == 0 {
+                last[s] = (seq, std::time::Instant::now()); // between calls
+                continue;
+            }
+            if last[s].0 != seq {
+                last[s] = (seq, std::time::Instant::now());
+                continue;
+            }
+            if last[s].1.elapsed().as_secs() >= STALL_SECS {
+                // the worker has been inside one decode call for >= 10 s; its input buffer is stable
+                let p = WD_PTR[s].load(Ordering::Acquire);
+                let n = WD_LEN[s].load(Ordering::Acquire);
+                let d = WD_DEC[s].load(Ordering::Acquire);
+                let input: Vec<u8> = unsafe { std::slice::from_raw_parts(p, n) }.to_vec();
+                eprintln!("C02 watchdog: decoder {} has not returned for {STALL_SECS} s on a {n}-byte input; confirming in a fresh process", decoder_name(d));
+                let exe = std::env::current_exe().unwrap();
+                let mut child = std::process::Command::new(exe).arg("c02-one").arg(d.to_string()).arg(hex(&input)).spawn().expect("spawn");
+                let t0 = std::time::Instant::now();
+                let mut finished = false;
+                while t0.elapsed().as_secs() < STALL_SECS {
+                    if let Ok(Some(_)) = child.try_wait() {
+                        finished = true;
+                        break;
+                    }
+                    std::thread::sleep(std::time::Duration::from_millis(100));
+                }
+                let _ = child.kill();
+                let mut r = Report::new("C02", &tier, seed, "exploration");
+                r.rule = "aborted by the progress watchdog".into();
+                r.evaluations = 1;
+                if finished {
+                    r.inconclusive(&format!("a decode of {} bytes by {} overran {STALL_SECS} s once but finished when re-run alone (machine load?)", n, decoder_name(d)));
+                } else {
+                    r.violation(
+                        &format!("{}: no progress", decoder_name(d)),
+                        &format!("decoding a {n}-byte input does not finish within {STALL_SECS} s (twice, second time alone in a fresh process)"),
+                        json!({"kind": "decode", "decoder": decoder_name(d), "bytes": hex(&input)}),
+                    );
+                }
+                let code = r.finish();
+                std::process::exit(code);
+            }
+        }
+    }
+}
+
+// ---------------------------------------------------------------- entry points
+
+fn repo_path() -> String {
+    std::env::var("VERIF_REPO_PATH").unwrap_or_else(|_| "/repo".into())
+}
+
+/// Child (plain release build): run shard `k` of the same workload and stream one digest per input.
+pub fn digest_server() -> i32 {
+    let args: Vec<String> = std::env::args().collect();
+    let quick = args[2] == "quick";
+    let seed: u64 = args[3].parse().unwrap();
+    let shard: usize = args[4].parse().unwrap();
+    let nshards: usize = args[5].parse().unwrap();
+    let schema = refcodec::zvt_schema();
+    let corpus = build_corpus(&schema, seed, if quick { 8 } else { 24 }, &repo_path());
+    let out = std::io::stdout();
+    let mut w = std::io::BufWriter::with_capacity(1 << 20, out.lock());
+    let mut emit = |d: usize, input: &[u8], _part: &str| {
+        let digest = match decode(d, input) {
+            Ok(h) => h,
+            Err(p) => fnv(panic_signature(&p).as_bytes()) ^ 3,
+        };
+        let _ = w.write_all(&digest.to_le_bytes());
+    };
+    workload(&schema, &corpus, quick, seed, shard, nshards, &mut Sink { f: &mut emit });
+    let _ = w.flush();
+    0
+}
+
+pub fn run(ctx: &Ctx) -> i32 {
+    let mut report = ctx.report("C02", "exploration");
+    if let Some(path) = &ctx.replay {
+        let text = std::fs::read_to_string(path).expect("replay file");
+        let v: serde_json::Value = serde_json::from_str(&text).expect("json");
+        let case = &v["case"];
+        let name = case["decoder"].as_str().unwrap();
+        let d = (0..n_decoders()).find(|d| decoder_name(*d) == name).unwrap();
+        let bytes = refcodec::unhex(case["bytes"].as_str().unwrap()).unwrap();
+        alloc_window_start();
+        let res = decode(d, &bytes);
+        println!("replay C02: decoder {name}, {} bytes -> {:?}, peak allocation {} bytes", bytes.len(), res, alloc_window_peak());
+        return 0;
+    }
+    report.rule = "72 decoders (55 struct types, 17 reply enums). (i) exhaustive: every input of length <= 2 and cf,cf,len,body for every body of length <= 2; (ii) corpus of reference encodings of canonical values (>= 8 per type) + the repository's captured packets: every truncation and every single-byte substitution (256 values per offset; quick: offsets < 96 of a seed-dependent sample of 128 packets), each through the packet's own decoder and the reply enums; (iii) structure-aware random mutants of the reference chunk trees (length-prefix forms 81/82/82xx/FF/too long/too short, tag splices, BCD digit overflow, F nibbles, calendar values month 0-19 day 0-39 hour 0-29, duplicated/dropped groups, cuts inside containers) and large bodies up to 65535 bytes. Non-trivial = input of >= 1 byte; distinct by hash of (decoder, input) for random parts, by construction for enumerated parts.".into();
+    report.exhaustive = Some(false);
+    report.assumptions = vec![
+        "allocation bound judged: peak live bytes during one decode <= 256 x input length + 256 KiB".into(),
+        "no progress = one decode call still running after 10 s, twice (second time alone in a fresh process); a single overrun is inconclusive".into(),
+        "debug/release differential: the plain release build of the same harness executes the identical workload; digests of Ok(Debug, remainder) | Err(variant) are compared input by input".into(),
+    ];
+    let schema = refcodec::zvt_schema();
+    let quick = ctx.quick();
+    let seed = ctx.seed;
+    let corpus = build_corpus(&schema, seed, if quick { 8 } else { 24 }, &repo_path());
+    report.extra.insert("corpus_packets".into(), json!(corpus.items.len()));
+    report.extra.insert("decoders".into(), json!(n_decoders()));
+    let nshards = ctx.threads.min(64);
+    let rel_bin = std::env::var("VERIF_REL_BIN").ok().filter(|p| std::path::Path::new(p).exists());
+    if rel_bin.is_none() {
+        report.inconclusive("release-profile binary not available (VERIF_REL_BIN): debug/release differential not run");
+    }
+    let tier = ctx.tier.clone();
+    let wd = std::thread::spawn(move || watchdog_thread(nshards, tier, seed));
+    sharded(&mut report, nshards, |shard, r| {
+        let mut child = rel_bin.as_ref().map(|bin| {
+            std::process::Command::new(bin)
+                .arg("c02-digest-server")
+                .arg(if quick { "quick" } else { "thorough" })
+                .arg(seed.to_string())
+                .arg(shard.to_string())
+                .arg(nshards.to_string())
+                .stdout(std::process::Stdio::piped())
+                .stderr(std::process::Stdio::null())
+                .spawn()
+                .expect("spawn release-profile digest server")
+        });
+        let mut rd = child.as_mut().map(|c| BufReader::with_capacity(1 << 20, c.stdout.take().unwrap()));
+        let mut max_ratio_num: usize = 0;
+        let mut max_peak: usize = 0;
+        let mut emit = |d: usize, input: &[u8], part: &str| {
+            WD_PTR[shard].store(input.as_ptr() as *mut u8, Ordering::Release);
+            WD_LEN[shard].store(input.len(), Ordering::Release);
+            WD_DEC[shard].store(d, Ordering::Release);
+            WD_SEQ[shard].fetch_add(1, Ordering::AcqRel); // odd: inside a call
+            alloc_window_start();
+            let res = decode(d, input);
+            let peak = alloc_window_peak();
+            WD_SEQ[shard].fetch_add(1, Ordering::AcqRel); // even: between calls
+            match part {
+                "short" | "cf-body" | "truncation" | "substitution" | "corpus" => r.case_enumerated(!input.is_empty()),
+                _ => r.case(fnv(input) ^ (d as u64).wrapping_mul(0x2545F4914F6CDD1D), true),
+            }
+            r.count(&format!("inputs.{part}"), 1);
+            let case = || json!({"kind": "decode", "decoder": decoder_name(d), "bytes": hex(input), "part": part});
+            let my_digest = match &res {
+                Ok(h) => *h,
+                Err(p) => {
+                    r.violation(&format!("{}: {}", decoder_name(d), panic_signature(p)), &format!("decoding {} panicked: {p}", if input.len() <= 64 { hex(input) } else { format!("{} bytes", input.len()) }), case());
+                    fnv(panic_signature(p).as_bytes()) ^ 3
+                }
+            };
+            // allocation monitor
+            let bound = 256 * input.len() + (256 << 10);
+            if peak > bound {
+                r.violation(&format!("{}: allocation out of proportion", decoder_name(d)), &format!("peak {peak} live bytes while decoding {} input bytes (bound {bound})", input.len()), case());
+            }
+            if peak > max_peak {
+                max_peak = peak;
+            }
+            let ratio = peak / input.len().max(1);
+            if input.len() >= 64 && ratio > max_ratio_num {
+                max_ratio_num = ratio;
+            }
+            // debug/release differential
+            if let Some(rd) = rd.as_mut() {
+                let mut buf = [0u8; 8];
+                match rd.read_exact(&mut buf) {
+                    Ok(()) => {
+                        let theirs = u64::from_le_bytes(buf);
+                        if theirs != my_digest {
+                            r.violation(
+                                &format!("{}: overflow-checked and release builds decode differently", decoder_name(d)),
+                                &format!("digest {my_digest:016x} (overflow-checked build) vs {theirs:016x} (release build) for {}", if input.len() <= 64 { hex(input) } else { format!("{} bytes", input.len()) }),
+                                case(),
+                            );
+                        } else {
+                            r.count("differential_inputs_compared", 1);
+                        }
+                    }
+                    Err(_) => r.inconclusive("release-profile digest stream ended early (child crashed?)"),
+                }
+            }
+            if r.wants_sample() && part == "structure-aware" && input.len() < 60 {
+                r.sample(json!({"decoder": decoder_name(d), "input": hex(input), "part": part, "result": match &res { Ok(h) => format!("digest {h:016x}"), Err(_) => "panic".to_string() }}));
+            }
+        };
+        workload(&schema, &corpus, quick, seed, shard, nshards, &mut Sink { f: &mut emit });
+        if let Some(mut c) = child {
+            drop(rd);
+            let _ = c.wait();
+        }
+        r.count("max_peak_alloc_bytes_shard_sum", 0);
+        r.note("max_peak_alloc_bytes", &format!("{max_peak:012}"));
+        r.note("max_alloc_ratio_inputs_ge_64", &format!("{max_ratio_num:06}"));
+    });
+    WD_DONE.store(true, Ordering::Relaxed);
+    let _ = wd.join();
+    // keep only the maxima of the per-shard notes
+    for k in ["max_peak_alloc_bytes", "max_alloc_ratio_inputs_ge_64"] {
+        if let Some(s) = report.sets.remove(k) {
+            let m = s.iter().max().cloned().unwrap_or_default();
+            report.extra.insert(k.into(), json!(m.trim_start_matches('0').parse::<u64>().unwrap_or(0)));
+        }
+    }
+    report.counters.remove("max_peak_alloc_bytes_shard_sum");
+    report.finish()
+}
+
+/// `zvtmon c02-one <decoder index> <hex>`: one decode in a fresh process (watchdog confirmation).
+pub fn one() -> i32 {
+    let args: Vec<String> = std::env::args().collect();
+    let d: usize = args[2].parse().unwrap();
+    let bytes = refcodec::unhex(&args[3]).unwrap();
+    let _ = decode(d, &bytes);
+    0
+}
+
+/// Down-scaled slice of the C02/C16/C17 workloads for Miri (`cargo +nightly miri run -- miri-slice`).
+pub fn miri_slice(ctx: &Ctx) -> i32 {
+    let schema = refcodec::zvt_schema();
+    let n: usize = ctx.args.first().and_then(|s| s.parse().ok()).unwrap_or(200);
+    let shard: usize = ctx.args.get(1).and_then(|s| s.parse().ok()).unwrap_or(0);
+    let corpus = build_corpus(&schema, ctx.seed, 2, &repo_path());
+    let mut rng = Rng::derive(ctx.seed, 0x3141 + shard as u64);
+    let with_tree: Vec<usize> = (0..corpus.items.len()).filter(|i| corpus.items[*i].2.is_some()).collect();
+    let mut done = 0usize;
+    let mut panics = 0usize;
+    while done < n {
+        let ci = with_tree[rng.below(with_tree.len() as u64) as usize];
+        let (ti, bytes, tree) = &corpus.items[ci];
+        let input = if rng.chance(1, 3) { bytes.clone() } else { mutate_tree(tree.as_ref().unwrap(), &mut rng).unwrap_or_else(|| bytes.clone()) };
+        if decode(*ti, &input).is_err() {
+            panics += 1;
+        }
+        if schema.get(TYPE_KEYS[*ti]).cf.is_some() {
+            let e = TYPE_KEYS.len() + rng.below(ENUM_KEYS.len() as u64) as usize;
+            if decode(e, &input).is_err() {
+                panics += 1;
+            }
+        }
+        done += 1;
+    }
+    // length prefixes and scalar encodings at their boundaries
+    use zvt_builder::length::{Adpu, Length, Llv, Lllv, Tlv};
+    for l in [0usize, 1, 127, 128, 255, 256, 65535] {
+        let _ = Tlv::deserialize(&Tlv::serialize(l));
+        let _ = Adpu::deserialize(&Adpu::serialize(l));
+    }
+    for l in [0usize, 9, 10, 99] {
+        let _ = Llv::deserialize(&Llv::serialize(l));
+        let _ = Lllv::deserialize(&Lllv::serialize(l * 10));
+    }
+    for b in [&[][..], &[0x82][..], &[0x82, 1][..], &[0x81][..], &[0xff][..], &[0xff, 1][..]] {
+        let _ = guarded(|| Tlv::deserialize(b).map(|x| x.0));
+        let _ = guarded(|| Adpu::deserialize(b).map(|x| x.0));
+    }
+    println!("MIRI-SLICE shard={shard} decodes={done} panics_observed={panics}");
+    if panics == 0 {
+        0
+    } else {
+        1
+    }
+}
+
